@@ -346,6 +346,12 @@ public:
         o["constexpr"] = vd->isConstexpr();
         o["tls"] = vd->getTLSKind() != VarDecl::TLS_None;
         o["static_local"] = vd->isStaticLocal();
+        // a namespace-scope / static member object whose initialiser is not a constant expression is initialised at program start,
+        // in an order that is unspecified relative to the other translation units
+        if (vd->hasGlobalStorage() && !vd->isStaticLocal() && vd->getTLSKind() == VarDecl::TLS_None && vd->hasInit() && !vd->isConstexpr() &&
+            !vd->getType()->isDependentType() && !vd->getInit()->isValueDependent()) {
+            o["dynamic_init"] = !vd->hasConstantInitialization();
+        }
         o["static_member"] = vd->isStaticDataMember();
         o["id"] = declId(vd);
         if (auto* fn = dyn_cast_or_null<FunctionDecl>(vd->getParentFunctionOrMethod())) {
